@@ -743,6 +743,21 @@ class _Gen:
         ufields = [{"id": i + 1, "name": "u%d" % self.uid(), "mod": "optional", "type": t, "default": None}
                    for i, t in enumerate(types)]
         f["structs"].append({"name": self.name(["USink%d"]), "kind": "union", "fields": ufields})
+        # a union whose scalar members declare defaults other than Go's zero values: choosing one member must not make
+        # the others count as set (their fields hold their defaults in New<Union>())
+        dfields = []
+        for i, t in enumerate([["i32"], ["string"], ["bool"], ["double"], ["i64"], ["i16"], en]):
+            v = None
+            for _ in range(20):
+                v = gen_value(rng, self.program, t, depth=2, safe=True)
+                if head_kind(self.program, t) == "enum":
+                    r = resolve(self.program, t)
+                    v = rng.choice([b for _, b in lookup(self.program, r[1], r[2])[1]["values"]])
+                if v not in (0, "", False, 0.0, None):
+                    break
+            dfields.append({"id": i + 1, "name": "d%d" % self.uid(), "mod": "optional", "type": t,
+                            "default": None if v in (0, "", False, 0.0, None) else {"value": v, "const": None}})
+        f["structs"].append({"name": self.name(["UDef%d"]), "kind": "union", "fields": dfields})
 
     def gen_service(self, fn):
         rng = self.rng
